@@ -198,6 +198,10 @@ func (doc *Document) AddNode(node Node) {
 	if !IsNil(node) {
 		doc.nodes = append(doc.nodes, node)
 		doc.addPointerToCache(node)
+
+		// A new record (such as a family) can change what is cached by the
+		// other individuals and families.
+		nodeCache = &sync.Map{}
 	}
 }
 
@@ -278,6 +282,7 @@ func (doc *Document) nonIndividuals() Nodes {
 
 func (doc *Document) SetNodes(nodes Nodes) {
 	doc.nodes = nodes
+	doc.rootNodesChanged()
 }
 
 func individuals(doc *Document) IndividualNodes {
@@ -335,7 +340,21 @@ func (doc *Document) AddFamilyWithHusbandAndWife(pointer string, husband, wife *
 func (doc *Document) DeleteNode(node Node) (didDelete bool) {
 	doc.nodes, didDelete = doc.nodes.deleteNode(node)
 
+	if didDelete {
+		doc.rootNodesChanged()
+	}
+
 	return
+}
+
+// rootNodesChanged must be called after root nodes are removed or replaced. It
+// makes sure the removed nodes are not found by their pointer, in the families
+// or through any of the individuals and families that had a relationship with
+// them.
+func (doc *Document) rootNodesChanged() {
+	doc.buildPointerCache()
+	doc.families = nil
+	nodeCache = &sync.Map{}
 }
 
 func (doc *Document) Warnings() (warnings Warnings) {
